@@ -201,10 +201,9 @@ class SccContext:
       self.paint_on_active_caption(time_code)
 
       if self.active_caption.get_caption_style() is SccCaptionStyle.PaintOn:
-        # Clear target row on Paint-On style
-        target_row = self.active_caption.get_lines().get(pac_row)
-        if target_row is not None:
-          target_row.clear()
+        # Clear target row on Paint-On style: the row is removed, so that it restarts at the
+        # indent of this PAC and not at the indent of the erased text
+        self.active_caption.get_lines().pop(pac_row, None)
 
       self.active_caption.set_cursor_at(pac_row, pac_indent)
 
